@@ -6,6 +6,7 @@ import (
 	"fmt"
 	"os"
 	"path/filepath"
+	"syscall"
 	"time"
 
 	"github.com/FollowTheProcess/spok/file"
@@ -122,7 +123,7 @@ func findMain(args []string) error {
 	return nil
 }
 
-func populate(dir string, d findDir, inner bool) error {
+func populate(dir string, d findDir, inner bool, variant int) error {
 	if err := os.MkdirAll(dir, 0o755); err != nil {
 		return err
 	}
@@ -132,7 +133,19 @@ func populate(dir string, d findDir, inner bool) error {
 			return err
 		}
 	case "dir":
-		// a directory named spokfile, holding a regular file of that name itself
+		// an entry named spokfile that is NOT a regular file.  Where the chain does not have to run through it, it is in turn a
+		// directory (holding a regular file of that name itself), a named pipe, a link to a directory, a dangling link
+		if inner {
+			switch variant % 4 {
+			case 1:
+				return syscall.Mkfifo(filepath.Join(dir, "spokfile"), 0o644)
+			case 2:
+				os.MkdirAll(filepath.Join(dir, "elsewhere.d"), 0o755)
+				return os.Symlink("elsewhere.d", filepath.Join(dir, "spokfile"))
+			case 3:
+				return os.Symlink("no-such-target", filepath.Join(dir, "spokfile"))
+			}
+		}
 		if err := os.MkdirAll(filepath.Join(dir, "spokfile"), 0o755); err != nil {
 			return err
 		}
@@ -187,7 +200,7 @@ func findHandle(root string, line []byte) any {
 	os.RemoveAll(filepath.Join(root, "c"))
 	os.RemoveAll(filepath.Join(root, "u"))
 	paths := map[int]string{-1: filepath.Join(root, "u"), -2: "/"}
-	if err := populate(paths[-1], s.U, true); err != nil {
+	if err := populate(paths[-1], s.U, true, s.ID+7); err != nil {
 		return map[string]any{"id": s.ID, "outcome": "driver-error", "err": err.Error()}
 	}
 	p := filepath.Join(root, "c")
@@ -200,7 +213,7 @@ func findHandle(root string, line []byte) any {
 		paths[l] = p
 		// the file inside a directory named spokfile is the next level's own business when the chain runs through it
 		inner := !(s.Through && l+1 < len(s.Levels))
-		if err := populate(p, d, inner); err != nil {
+		if err := populate(p, d, inner, s.ID+l); err != nil {
 			return map[string]any{"id": s.ID, "outcome": "driver-error", "err": err.Error()}
 		}
 	}
